@@ -3,6 +3,7 @@ import Spec
 import Gen
 import Proofs.Encode
 import Proofs.Header
+import Props.C01
 /-!
   C02 — wire images match an independent RFC 6733 reference codec; header length bookkeeping;
   closed forms for the arithmetic kernels regenerated from the source (`Gen.Arith`), for ALL
@@ -93,6 +94,21 @@ theorem C02_ref_enc_msg (m : Msg) (h : canonL m.avps = true) (hv : m.hdr.version
   unfold Msg.enc Header.enc Spec.encode
   rw [hv, hl, Msg.len, this.1, this.2]
   simp
+
+/-- Decode direction: the wire image the *reference* encoder produces for a message is read by
+    the library into the same header and the same ordered tree of typed values (Length fields
+    filled in) - for every dictionary, header and canonical tree below the 24-bit limit. -/
+theorem C02_ref_dec (d : DictFn) (m : Msg) (nreq nans : Nat)
+    (hv : m.hdr.version = 1) (hf : m.hdr.flags < 256) (hcmd : m.hdr.cmd < 16777216)
+    (happ : m.hdr.app < 4294967296) (hh : m.hdr.hbh < 4294967296) (he : m.hdr.e2e < 4294967296)
+    (hlen : m.hdr.len = m.len) (hsz : m.len < 16777216)
+    (hcmdr : d.cmdRules m.hdr.app m.hdr.cmd = some (nreq, nans))
+    (hrules : (if isRequest m.hdr.flags then nreq else nans) ≠ 0)
+    (hc : canonL m.avps = true) (ht : typedOkL (d.avpType m.hdr.app) m.avps = true) :
+    decodeMsg d (Spec.encode m.hdr.flags m.hdr.cmd m.hdr.app m.hdr.hbh m.hdr.e2e m.avps) =
+      .ok { hdr := m.hdr, avps := wireL m.avps } := by
+  rw [← C02_ref_enc_msg m hc hv hlen]
+  exact DV.Props.C01.C01_api_msg d m nreq nans (by omega) hf hcmd happ hh he hlen hsz hcmdr hrules hc ht
 
 /-- message length = 20 + the padded AVPs, each a multiple of four -/
 theorem C02_len_mod4 (as : List AVP) (h : canonL as = true) : (20 + lenL as) % 4 = 0 := by
